@@ -232,8 +232,8 @@ func (w *c03World) stuckProduct(l *c03Local, t10 int, emask int, reduced bool) {
 			switch {
 			case so == 2 && !full:
 				return
-			case reduced && !full && (len(votes) != len(voters)-1 || votes[len(votes)-1].Node != voters[len(voters)-2]):
-				return // reduced: only the last node may be absent
+			case reduced && !full && !c03OnlyLastAbsent(votes, voters):
+				return
 			}
 
 			c.Votes = votes
@@ -314,6 +314,21 @@ func (w *c03World) stuckProduct(l *c03Local, t10 int, emask int, reduced bool) {
 			l.outcomes["honest-stuck:accepted:draw"]++
 		}
 	}
+}
+
+// reduced configs: only the last non-expelled node may be absent
+func c03OnlyLastAbsent(votes []c03Vote, voters []int) bool {
+	if len(votes) < 1 || len(votes) != len(voters)-1 {
+		return false
+	}
+
+	for i := range votes {
+		if votes[i].Node != voters[i] {
+			return false
+		}
+	}
+
+	return true
 }
 
 const c03sRule = " STUCK: per (n, t, stage) and non-empty proper expelled set E also every INIT/ACCEPT STUCK voteproof: each expel " +
